@@ -8,6 +8,50 @@ MATRIX_KINDS_H = ['real_symmetric', 'complex_hermitian', 'degenerate', 'block_in
 MATRIX_KINDS_G = ['real_general', 'complex_general', 'block_invariant_general', 'nilpotent_chain']
 START_KINDS = ['complex', 'real']
 PRESENTATIONS = ['fresh', 'buffer', 'view']
+# units of the map and of the start vector (exact powers of two): (scale of A, scale of v)
+UNITS = {'unit': (1.0, 1.0), 'small': (2.0 ** -30, 1.0), 'tiny': (2.0 ** -50, 1.0), 'large': (2.0 ** 50, 1.0),
+         'tiny_start': (1.0, 2.0 ** -50), 'large_start': (1.0, 2.0 ** 50)}
+# the library's breakdown test is absolute: beta < 100 * n * eps
+KNOWN_CLASS = '[offdiagonal_below_absolute_breakdown_threshold]'
+
+
+def breakdown_threshold(n):
+    return 100 * n * np.finfo(float).eps
+
+
+def reference_offdiagonals(A, v, steps):
+    """
+    Norms of the successive new Krylov directions (the Lanczos beta_j / Arnoldi H[j+1,j] in exact arithmetic) computed here by
+    Gram-Schmidt with double re-orthogonalisation and no threshold; `steps` of them (the caller knows the Krylov dimension).
+    """
+    V = [np.asarray(v, dtype=complex) / np.linalg.norm(v)]
+    out = []
+    for j in range(steps):
+        w = A @ V[j]
+        for _ in range(2):
+            for u in V:
+                w = w - np.vdot(u, w) * u
+        h = float(np.linalg.norm(w))
+        out.append(h)
+        if h == 0:
+            break
+        V.append(w / h)
+    return out
+
+
+def below_threshold(A, v, m, kd):
+    """True when a genuine off-diagonal coefficient needed for min(m, kd) vectors is not safely (factor 10) above the absolute test."""
+    steps = min(m, kd) - 1
+    if steps <= 0:
+        return False
+    h = reference_offdiagonals(A, v, steps)
+    return len(h) < steps or min(h) < 10 * breakdown_threshold(A.shape[0])
+
+
+def add_class(ctx, n0, suffix):
+    """Append a class suffix to the clause names of the failures recorded since position n0."""
+    for i in range(n0, len(ctx.fails)):
+        ctx.fails[i] = (ctx.fails[i][0] + suffix,) + tuple(ctx.fails[i][1:])
 
 
 def unitary(rng, n, real=False):
